@@ -55,7 +55,7 @@ func sizeKey(sizes []int) string {
 func init() {
 	core.Register(&core.Prop{
 		ID: "C15", Level: "fault_enumeration",
-		Rule:        "For every value of the zoo enumeration (<=k deviating positions), deduplicated per zoo type by the sequence of Write sizes it produces, a counting pass gives the number n of Write calls; then every call index 0..n-1 x fault kinds {error once, error from then on, short count + io.ErrShortWrite, short count + nil error, zero count + nil error} x entry points {Encoder.WriteTo, Encoder.WriteObject as first and as second value of a stream, Serializer.WriteTo, Serializer.Write as second value} is executed on the real encoder with a fault-injecting writer, both a plain io.Writer and one that also implements io.ByteWriter; the same for six large values (1100-1200 element lists, 20000-octet binary, 9000-char string). Oracle: whenever bytes were lost the call returns a non-nil error and does not panic. Non-trivial = a fault was injected and bytes were lost; distinct = (write-size sequence, type, entry, fault kind, index).",
+		Rule:        "For every value of the zoo enumeration (<=k deviating positions), deduplicated per zoo type by the sequence of Write sizes it produces, a counting pass gives the number n of Write calls; then every call index 0..n-1 x fault kinds {error once, error from then on, short count + io.ErrShortWrite, short count + nil error, zero count + nil error, full count together with an error} x entry points {Encoder.WriteTo, Encoder.WriteObject as first and as second value of a stream, Serializer.WriteTo, Serializer.Write as second value} is executed on the real encoder with a fault-injecting writer, both a plain io.Writer and one that also implements io.ByteWriter; the same for six large values (1100-1200 element lists, 20000-octet binary, 9000-char string). Oracle: whenever the writer returned an error or a short count for a non-empty write the call returns a non-nil error and does not panic. Non-trivial = a fault was injected and bytes were lost; distinct = (write-size sequence, type, entry, fault kind, index).",
 		Assumptions: []string{"faults are injected at Write-call granularity on the caller-supplied io.Writer, the encoder's only contact with its destination", "a zero-length Write cannot lose bytes and is not counted as a fault"},
 		Units: func(tier string) []core.Unit {
 			var us []core.Unit
@@ -187,7 +187,7 @@ func faultAll(c *core.Ctx, seen map[string]bool, cover string, val interface{}, 
 					case pmsg != "":
 						c.Report(&core.Violation{Stage: "encode", Kind: "panic", Shape: shape, Message: msgClass(pmsg), Case: desc, Choices: choices})
 					case err == nil:
-						c.Report(&core.Violation{Stage: "encode", Kind: "success-reported", Shape: shape, Message: "encode call returned nil although the writer lost bytes at " + writeRole(w0.Sizes, at-extra, w0.Calls),
+						c.Report(&core.Violation{Stage: "encode", Kind: "success-reported", Shape: shape, Message: "encode call returned nil although the writer reported a failure at " + writeRole(w0.Sizes, at-extra, w0.Calls),
 							Case: desc, Detail: fmt.Sprintf("write sizes %v", trimSizes(w0.Sizes)), Choices: choices})
 					default:
 						c.Outcome("error-surfaced")
